@@ -715,11 +715,23 @@ class Gen:
         if ch:
             doc["charges"] = ch
         if rng.random() < 0.2:
-            doc.setdefault("payment", {})["terms"] = {"key": "due-date", "due_dates": [
-                {"date": "2022-03-01", "percent": rng.choice(PCT[:9])}, {"date": "2022-04-01", "amount": self.amt(3000, c if c03 else 3)}]}
-        if rng.random() < 0.3:
-            doc.setdefault("payment", {})["advances"] = [{"description": "a", "percent": rng.choice(PCT[:9])},
-                                                         {"description": "b", "amount": self.amt(3000, c if c03 else 2)}]
+            dd_rows = []
+            for i in range(rng.randint(1, 3)):
+                if rng.random() < 0.5:
+                    dd_rows.append({"date": "2022-0%d-01" % (3 + i), "percent": rng.choice(PCT[:9])})
+                else:
+                    dd_rows.append({"date": "2022-0%d-01" % (3 + i), "amount": self.amt(3000, c if c03 else 3)})
+            doc.setdefault("payment", {})["terms"] = {"key": "due-date", "due_dates": dd_rows}
+        if rng.random() < 0.35:
+            # 1-4 advance rows, fixed and percentage in any order (a fixed first row followed by percentage rows
+            # exercises the precision of the running sum)
+            rows = []
+            for i in range(rng.randint(1, 4)):
+                if rng.random() < 0.5:
+                    rows.append({"description": "p%d" % i, "percent": rng.choice(PCT[:9] + ["2.5%", "12.5%", "0.5%"])})
+                else:
+                    rows.append({"description": "f%d" % i, "amount": self.amt(3000, c if c03 else rng.choice([c, c, 2, 3]))})
+            doc.setdefault("payment", {})["advances"] = rows
         return doc
 
 
